@@ -172,6 +172,22 @@ func buildCatalogue(c *Ctx) []buildCase {
 			}})
 		}
 	}
+	// path variables bound to proto3 optional fields (pointers in the Go struct), alone and next to a plain one
+	for _, k := range spec.ScalarKinds {
+		if k == spec.Bytes {
+			continue
+		}
+		k := k
+		for _, verb := range []int32{1, 2} {
+			verb := verb
+			out = append(out, buildCase{ID: fmt.Sprintf("pathvar-optional/%s/%s", spec.KindName(k), spec.VerbName(verb)), TS: true, Files: func(pkg, goName string) []*spec.File {
+				return oneFile(pkg, goName, func(f *spec.File) {
+					f.Messages = []*spec.Message{{Name: "PReq", Fields: []*spec.Field{spec.F("item_key", 1, k).Opt(), spec.F("plain_key", 2, spec.String)}}, {Name: "PResp", Fields: []*spec.Field{spec.F("ok", 1, spec.Bool)}}}
+					f.Services = []*spec.Service{echoSvc(pkg, "PService", "PReq", "PResp", verb, "/p/{plain_key}/o/{item_key}")}
+				})
+			}})
+		}
+	}
 	// 4b. which helpers and imports a file needs depends on the MIX of RPC shapes in it: every single
 	// shape alone and every pair (a conditional import decided by one shape and used by another)
 	type rpcShape struct {
